@@ -4,7 +4,7 @@
    properties of the Python runtime that this functional model cannot exhibit;
    they are covered by differential testing only (partial). *)
 From Coq Require Import List Arith ZArith.
-From RV Require Import Val Syntax Rho Offline Alias ExtZ.
+From RV Require Import Val Syntax Rho Offline Alias AliasFacts ExtZ.
 Import ListNotations.
 
 (* evaluate() never modifies an object that existed before the call (the data set's columns included) *)
@@ -30,6 +30,24 @@ Theorem C11_repeat :
     read (snd (eval_st AR pk m n p s1)) (fst (eval_st AR pk m n p s1)) = read s1 (fst (eval_st AR pk m n p s)).
 Proof. exact @eval_st_repeat. Qed.
 Print Assumptions C11_repeat.
+
+(* isolation between specifications that share the caller's data (the list-object half of it; what separate Python objects could
+   share beyond lists — class attributes, module state — is outside this model and covered by the differential check): whatever
+   specifications were evaluated before, in any order, q returns what it returns on a fresh store, and the caller's columns are intact *)
+Theorem C11_isolated :
+  forall (VS : Val) (AR : Arith VS) (pk : formula -> formula -> pkind) (m n : nat) (ps : list formula) (q : formula) (s : store),
+    m <= length s -> nvars q <= m ->
+    let s1 := eval_all AR pk m n ps s in
+    read (snd (eval_st AR pk m n q s1)) (fst (eval_st AR pk m n q s1)) = eval_off AR pk q (caller m s) n /\
+    read (snd (eval_st AR pk m n q s1)) (fst (eval_st AR pk m n q s1)) = read (snd (eval_st AR pk m n q s)) (fst (eval_st AR pk m n q s)).
+Proof. exact @eval_st_isolated. Qed.
+Print Assumptions C11_isolated.
+
+Theorem C11_frame_all :
+  forall (VS : Val) (AR : Arith VS) (pk : formula -> formula -> pkind) (m n : nat) (ps : list formula) (s : store),
+    m <= length s -> caller m (eval_all AR pk m n ps s) = caller m s.
+Proof. exact @eval_all_caller_untouched. Qed.
+Print Assumptions C11_frame_all.
 
 Example C11_nonvacuous :
   let p : @formula ExtZVal := And (AlwT 0 3 (Var 0)) (Pred CGeq (A2 Add (Var 0) (Var 1)) (Const (Fin 0))) in
